@@ -53,9 +53,20 @@ Definition kind_of (m : msg) : bvl_class :=
   end.
 Definition fn_of (m : msg) : N := fn_of_kind (kind_of m).
 
-(* pdu.Address((ip, port)): addrAddr = inet_aton(ip) + struct.pack('!H', port & 0xFFFF) *)
+(* pdu.Address((ip, port)) and Address("a.b.c.d[/n]:port"): the constructor refuses a port outside
+   0..65535 with ValueError (merged tree: "fix: refuse IP ports outside 0..65535 ..."); otherwise
+   addrAddr = inet_aton(ip) + struct.pack('!H', port & 0xFFFF).
+   ip_addr is the octet layout (what the object holds once constructed), mk_ip the constructor. *)
 Definition ip_addr (a b c d : N) (port : Z) : addr :=
   ABytes ([a; b; c; d] ++ be2 (Z.to_N (port mod 65536))).
+Definition port_ok (port : Z) : bool := (0 <=? port)%Z && (port <=? 65535)%Z.
+Definition mk_ip (a b c d : N) (port : Z) : res addr :=
+  if port_ok port then Ok (ip_addr a b c d port) else Err ValueErr.
+(* a message is built from already constructed Address objects: the constructions run first, in
+   order, and the first failure is what the caller sees *)
+Fixpoint all_ok (rs : list (res addr)) : res unit :=
+  match rs with [] => Ok tt | r :: t => do _ <- r; all_ok t end.
+Definition addr_val (r : res addr) : addr := match r with Ok a => a | Err _ => ANone end.
 (* Address("a.b.c.d/n"): addrMask = (0xFFFFFFFF << (32 - n)) & 0xFFFFFFFF, 0 <= n <= 32 *)
 Definition prefix_mask (n : N) : Z := Z.of_N ((4294967295 * 2 ^ (32 - n)) mod 4294967296).
 
@@ -308,4 +319,11 @@ Definition canon_decode (bs : list N) : list Z :=
     end
   end.
 Definition canon_encode (m : msg) : list Z := bres zs (enc_frame m).
+(* with the Address constructions that precede the message's own construction *)
+Definition canon_build_encode (rs : list (res addr)) (m : msg) : list Z :=
+  bres zs (do _ <- all_ok rs; enc_frame m).
+Definition canon_build_encode_with (rs : list (res addr)) (stored : N) (m : msg) : list Z :=
+  bres zs (do _ <- all_ok rs; enc_frame_with stored m).
+Definition canon_build_ctor_len (rs : list (res addr)) (m : msg) : list Z :=
+  bres (fun n => [zN n]) (do _ <- all_ok rs; Ok (ctor_len m)).
 Definition canon_encode_with (stored : N) (m : msg) : list Z := bres zs (enc_frame_with stored m).
